@@ -8,5 +8,5 @@ CONSTANTS
   MaxSteps = 3
   MaxUpload = 6
   SniffLen = 2
-INVARIANTS SessionAgrees HistoryIndependent NothingRemembered UploadAgreesMC
+INVARIANTS SessionAgrees HistoryIndependent NothingRemembered UploadAgreesMC FormAgreesMC PiecesIntactMC
 CHECK_DEADLOCK FALSE
